@@ -98,6 +98,21 @@ def explore_orders(ctx: Ctx) -> List[Case]:
         ctx.require("get_balance_updates" in methods, f"C04.1: {cname}.get_balance_updates not found")
         entry = methods["get_balance_updates"]
         ctx.analysed_funcs.add(f"{cls}.get_balance_updates")
+        # an order matches against its own state: delegating to another Order object (composition) reads that object's pending amount,
+        # which nobody updates with the fills -- the delegate keeps offering the full amount
+        deleg = []
+        for mname, mdef in methods.items():
+            for c_ in ast.walk(mdef):
+                if isinstance(c_, ast.Call) and isinstance(c_.func, ast.Attribute) and c_.func.attr.startswith("get_balance_updates") \
+                        and isinstance(c_.func.value, ast.Attribute) and isinstance(c_.func.value.value, ast.Name) and c_.func.value.value.id == "self":
+                    deleg.append((mname, c_))
+        if deleg:
+            fq_ = ctx.repo.funcs.get(f"{cls}.{deleg[0][0]}") or ctx.repo.funcs.get(f"{cls}.get_balance_updates")
+            ctx.bad("C04.1", f"{cname} computes its fills from its own state", fq_, deleg[0][1],
+                    f"'{ast.unparse(deleg[0][1])[:70]}' delegates matching to another order object: that object's filled / pending amounts are never "
+                    "updated by add_fill, so every bar offers the full ordered amount again and the order can be filled beyond its amount",
+                    key_text=f"delegated matching {cname}")
+            continue
         syms = ["O", "H", "L", "C"] + extra
         latches = [False, True] if kind == "stoplimit" else [False]
         for po in AI.weak_orderings(syms):
